@@ -37,7 +37,32 @@ type Case struct{ Ops []Op }
 
 func genCase(t *rapid.T) Case {
 	min := rapid.IntRange(3, 30).Draw(t, "minSteps")
-	return Case{Ops: rapid.SliceOfN(rapid.Custom(mops.Gen), min, 40).Draw(t, "ops")}
+	ops := rapid.SliceOfN(rapid.Custom(mops.Gen), min, 40).Draw(t, "ops")
+	// Aliasing shows when SIBLINGS are derived from one base, often by the same kind of operation and
+	// after the base itself was grown by appends. Random picks make that rare, so a drawn share of the
+	// steps is rewritten to "the same operation kind again on the previous step's base" and a drawn
+	// share of the derivations is turned into appends (the operation that grows every array).
+	for i := 1; i < len(ops); i++ {
+		if ops[i].K == "fresh" || ops[i].K == "prim" {
+			continue
+		}
+		switch rapid.IntRange(0, 7).Draw(t, "bias") {
+		case 0, 1: // sibling derivation from the same base
+			ops[i].A = ops[i-1].A
+		case 2: // same kind of derivation from the same base, other partner
+			if ops[i-1].K != "fresh" && ops[i-1].K != "prim" {
+				b := ops[i].B
+				ops[i] = ops[i-1]
+				ops[i].B = b
+			}
+		case 3:
+			ops[i].K = "append"
+		case 4: // derive from the previous step's result (pool slot len-1 while the pool is not full)
+			ops[i].K = "append"
+			ops[i].A = i % 8
+		}
+	}
+	return Case{Ops: ops}
 }
 
 type live struct {
